@@ -56,8 +56,8 @@ class NodeData:
     children: list[Node] = field(default_factory=list, repr=False)
     metadata: dict[str, Any] = field(default_factory=dict)
 
-    def _to_serial(self, node: Node) -> SerialOp:
-        o = self.op._to_serial(self.parent if self.parent else node)
+    def _to_serial(self, parent: Node) -> SerialOp:
+        o = self.op._to_serial(parent)
 
         return SerialOp(root=o)  # type: ignore[arg-type]
 
@@ -646,19 +646,23 @@ class Hugr(Mapping[Node, NodeData], Generic[OpVarCov]):
     def _to_serial(self) -> SerialHugr:
         """Serialize the HUGR."""
         live_nodes = [node for node in self._nodes if node is not None]
+        # non contiguous indices are erased: live nodes are renumbered in order
+        rekey = {node.idx: pos for pos, node in enumerate(self)}
+
+        def _serialize_node(node: Node) -> SerialOp:
+            # the root is serialized as its own parent
+            parent = self[node].parent or node
+            return self[node]._to_serial(Node(rekey[parent.idx]))
 
         def _serialize_link(
             link: tuple[_SO, _SI],
         ) -> tuple[tuple[NodeIdx, PortOffset], tuple[NodeIdx, PortOffset]]:
             src, dst = link
             s, d = self._constrain_offset(src.port), self._constrain_offset(dst.port)
-            return (src.port.node.idx, s), (dst.port.node.idx, d)
+            return (rekey[src.port.node.idx], s), (rekey[dst.port.node.idx], d)
 
         return SerialHugr(
-            # non contiguous indices will be erased
-            nodes=[
-                node._to_serial(Node(idx, {})) for idx, node in enumerate(live_nodes)
-            ],
+            nodes=[_serialize_node(node) for node in self],
             edges=[_serialize_link(link) for link in self._links.items()],
             metadata=[node.metadata if node.metadata else None for node in live_nodes],
         )
